@@ -14,7 +14,10 @@ Enumerated space (token x id_type x language x configuration):
     against the patterns at run time: a pattern without witness or near-miss is a harness error);
   * all strings of length 1..3 over an "exotic" alphabet (unicode white space, unicode digit, non-ASCII letters, astral
     code point, NUL, lone surrogate, '$', CR, LF) mixed with {a, A, _, 1};
-  * id_type in {any, path, macro, typedef, function, enum}; language in {c, cpp, py}; configuration in CONFIGS.
+  * id_type in {any, path, macro, typedef, function, enum}; language in {c, cpp, py}; configuration in CONFIGS
+    (default; the two alternative prefix/suffix/encoding-prefix sets of the TokenEncoder doctests; enable_stropping
+    false; the complete configuration of the TokenEncoder class doctest incl. its reserved identifiers, `var` patterns
+    and encoding rule, with the doctest's example tokens added to the token list).
 
 Oracle (written from the *configuration* - properties.yaml parsed here + the override dict + Python's keyword/builtins
 lists - never from TokenEncoder): the call either raises or returns a str that
@@ -568,7 +571,14 @@ def collect_child(p: subprocess.Popen, out_path: str, name: str) -> dict:
         return json.load(f)
 
 
-CHILDREN = [("seed1-fwd", 1, "fwd"), ("seed4242-rev", 4242, "rev")]
+def _children() -> typing.List[typing.Tuple[str, int, str]]:
+    """Two fresh processes whose string-hash seeds differ from each other and from this process' (the runner uses 0)."""
+    mine = os.environ.get("PYTHONHASHSEED", "")
+    seeds = [s for s in (1, 4242, 77, 9001) if str(s) != mine][:2]
+    return [(f"seed{seeds[0]}-fwd", seeds[0], "fwd"), (f"seed{seeds[1]}-rev", seeds[1], "rev")]
+
+
+CHILDREN = _children()
 
 
 def compare_processes(ctx: Ctx, mine: typing.Dict[str, list], docs: typing.Dict[str, dict], tokens: typing.List[str]) -> int:
@@ -594,7 +604,7 @@ def compare_processes(ctx: Ctx, mine: typing.Dict[str, list], docs: typing.Dict[
                     ctx.violation(
                         {"kind": "process_dependent", "lang": lang, "config": cfg, "id_type": i, "feature": name},
                         {"mode": "determinism", "lang": lang, "config": cfg, "id_type": i, "token": t},
-                        f"[{lang}/{cfg}/{i}] {t!r}: {a!r} in the checking process (hash seed 0), {b!r} in fresh process {name}",
+                        f"[{lang}/{cfg}/{i}] {t!r}: {a!r} in the checking process, {b!r} in fresh process {name}",
                     )
     if len(set(hashes.values())) != len(hashes):
         raise HarnessError(f"the fresh processes did not run with distinct string hash seeds: {hashes}")
@@ -685,11 +695,26 @@ def run(ctx: Ctx) -> int:
                 raise HarnessError(f"vacuous exploration: the {lang} failure handler was never invoked")
 
     # ---- every violation is re-executed once from its recorded case in this process (fresh language object)
-    for v in list(ctx.bag.v.values()):
+    # A violation that does not reproduce on a fresh object but does reproduce after the calls that preceded it in the
+    # worker (same token, the id types before it) is a dependence on the call history: it is reported as such, with the
+    # history in the case. Anything else that does not reproduce is a harness error.
+    for key, v in list(ctx.bag.v.items()):
         if v.case.get("mode") == "oracle" and v.sig["kind"] != "cold_warm_differ":
             got = {k for k, _, _ in _replay_oracle(v.case)[1]}
-            if v.sig["kind"] not in got:
+            if v.sig["kind"] in got:
+                continue
+            hcase = dict(v.case, mode="history", history=ID_TYPES[: ID_TYPES.index(v.case["id_type"]) + 1])
+            with_history, fresh, _ = _replay_history(hcase)
+            if with_history == fresh:
                 raise HarnessError(f"violation {v.sig} did not reproduce from its recorded case {v.case}: {sorted(got)}")
+            del ctx.bag.v[key]
+            ctx.violation(
+                dict(v.sig, kind="history_dependent", feature=v.sig["kind"]),
+                hcase,
+                f"[{v.case['lang']}/{v.case['config']}/{v.case['id_type']}] {v.case['token']!r}: {fresh!r} on a fresh language "
+                f"object, {with_history!r} after filter_id of the same token with id types {hcase['history'][:-1]}",
+                v.count,
+            )
 
     for lang, cfg, id_type, token in SAMPLE_CASES:
         out = call(make_language(lang, cfg), token, id_type)
@@ -753,7 +778,28 @@ def _replay_oracle(case: dict) -> typing.Tuple[Outcome, typing.List[typing.Tuple
     return out, v
 
 
+def _replay_history(case: dict) -> typing.Tuple[Outcome, Outcome, typing.List[typing.Tuple[str, str, str]]]:
+    """(outcome after the recorded call history on one object, outcome on a fresh object, oracle verdict on the former)."""
+    spec = Spec(case["lang"], case["config"])
+    lo = make_language(case["lang"], case["config"])
+    out: Outcome = ("bad", "empty history")
+    for id_type in case["history"]:
+        out = call(lo, case["token"], id_type)
+    fresh = call(make_language(case["lang"], case["config"]), case["token"], case["history"][-1])
+    f = spec.facts(case["token"], case["history"][-1])
+    return out, fresh, judge(spec, case["token"], case["history"][-1], out, f)
+
+
 def replay(ctx: Ctx, case: dict) -> int:
+    if case.get("mode") == "history":
+        with_history, fresh, v = _replay_history(case)
+        print(f"[{case['lang']}/{case['config']}] filter_id({case['token']!r}, t) for t in {case['history']} on one object -> {with_history!r}")
+        print(f"  on a fresh object filter_id({case['token']!r}, {case['history'][-1]!r}) -> {fresh!r}")
+        for kind, feature, what in v:
+            print(f"  violates: {kind}/{feature}: {what}")
+        if with_history != fresh:
+            print("  violates: the result depends on earlier calls, not only on the input")
+        return 1 if (v or with_history != fresh) else 0
     out, v = _replay_oracle(case)
     print(f"[{case['lang']}/{case['config']}/{case['id_type']}] filter_id({case['token']!r}) -> {out!r}")
     rc = 0
